@@ -9,6 +9,7 @@ Inductive rv :=
 | RErr (e : option str)          (* error: None = nil, Some msg = non-nil with Error() = msg *)
 | RInt (n : Z)                   (* int *)
 | RPtr (p : option str)          (* *string: None = nil pointer *)
+| RPtrB (p : option str)         (* *[]byte, or an interface{} holding a []byte: None = nil *)
 | ROther.                        (* anything else with a non-zero value (struct, bool true, ...) *)
 
 (* operations on the http.ResponseWriter the return handler performs, in order *)
@@ -22,6 +23,7 @@ Definition is_zero (v : rv) : bool :=
   | RErr None => true
   | RInt 0 => true
   | RPtr None => true
+  | RPtrB None => true
   | _ => false
   end.
 
@@ -35,6 +37,7 @@ Definition render_val (v : rv) : list wop :=
            | RStr s => [WBody s]
            | RBytes (Some b) => match b with [] => [] | _ => [WBody b] end
            | RPtr (Some s) => [WBody s]            (* canDeref -> Elem -> String *)
+           | RPtrB (Some b) => match b with [] => [] | _ => [WBody b] end   (* canDeref -> Elem -> a byte slice *)
            | _ => []                               (* not a supported shape: modelled as nothing *)
            end
   end.
